@@ -14,9 +14,10 @@ Definition ustr := list N.
 
 (* [char::is_whitespace] = the Unicode White_Space property *)
 Definition is_ws (c : N) : bool :=
-  ((9 <=? c) && (c <=? 13)) || (c =? 32) || (c =? 133) || (c =? 160)
-  || (c =? 5760) || ((8192 <=? c) && (c <=? 8202)) || (c =? 8232)
-  || (c =? 8233) || (c =? 8239) || (c =? 8287) || (c =? 12288).
+  if c <? 128 then ((9 <=? c) && (c <=? 13)) || (c =? 32)     (* ASCII first: the common case *)
+  else (c =? 133) || (c =? 160)
+       || (c =? 5760) || ((8192 <=? c) && (c <=? 8202)) || (c =? 8232)
+       || (c =? 8233) || (c =? 8239) || (c =? 8287) || (c =? 12288).
 
 Definition NL : N := 10.
 Definition SP : N := 32.
@@ -29,7 +30,9 @@ Fixpoint trim_start (s : ustr) : ustr :=
   | c :: r => if is_ws c then trim_start r else s
   | [] => []
   end.
-Definition trim_end (s : ustr) : ustr := rev (trim_start (rev s)).
+(* (reversal by accumulation: [rev_append l [] = rev l], linear) *)
+Definition frev (s : ustr) : ustr := rev_append s [].
+Definition trim_end (s : ustr) : ustr := frev (trim_start (frev s)).
 Definition trim (s : ustr) : ustr := trim_end (trim_start s).
 
 (* [str::split('\n')]: always at least one (possibly empty) piece *)
@@ -88,8 +91,12 @@ Fixpoint skip_blank (ls : list ustr) : option ustr * list ustr :=
   | l :: r => if is_nil l then skip_blank r else (Some l, r)
   end.
 
-Definition ends_with (s : ustr) (c : N) : bool :=
-  match rev s with x :: _ => x =? c | [] => false end.
+Fixpoint ends_with (s : ustr) (c : N) : bool :=
+  match s with
+  | [] => false
+  | [x] => x =? c
+  | _ :: r => ends_with r c
+  end.
 
 (* the closure folded over the remaining lines *)
 Definition fold_step (acc comment : ustr) : ustr :=
